@@ -21,8 +21,8 @@ from .. import tlc
 from ..secrun import run_batch
 from .c01 import validate
 
-PROTOS = {'trunc': 'trunc', 'sgn': 'sgn', 'lsb': 'lsb', '_mod': 'mod', 'to_bits': 'tobits', 'is_zero_public': 'zero'}
-BLANK = {'proto': '', 'l': 0, 'bl': 0, 'k': 0, 'f': 0, 'b': 1, 'p': 3, 'a': 0, 'c': 0, 'nbits': 0, 'bound': 0, 'haspair': False, 'pa': 0, 'pc': 0,
+PROTOS = {'trunc': 'trunc', 'sgn': 'sgn', 'lsb': 'lsb', '_mod': 'mod', 'to_bits': 'tobits', 'is_zero_public': 'zero', '_convert': 'convert'}
+BLANK = {'proto': '', 'l': 0, 'bl': 0, 'k': 0, 'f': 0, 'b': 1, 'p': 3, 'a': 0, 'c': 0, 'nbits': 0, 'bound': 0, 'haspair': False, 'pa': 0, 'pc': 0, 'd': 1,
          'cfg': ''}
 
 
@@ -77,8 +77,18 @@ class Hooks:
             if name is not None and not signed:
                 hooks.rec.append(('bits', self_.pid, name, n))
             return orig_bits(self_, sftype, n, signed)
-        self.saved = [(R, 'output', orig_out), (R, '_randoms', orig_rnds), (R, 'random_bits', orig_bits)]
-        R.output, R._randoms, R.random_bits = output, _randoms, random_bits
+        orig_prfs = R.prfs
+
+        def prfs(self_, bound):
+            name = caller_proto()
+            if name == '_convert':
+                hooks.rec.append(('bound', self_.pid, name, bound))
+            return orig_prfs(self_, bound)
+        for attr in ('cache_clear', 'cache_info'):
+            if hasattr(orig_prfs, attr):
+                setattr(prfs, attr, getattr(orig_prfs, attr))
+        self.saved = [(R, 'output', orig_out), (R, '_randoms', orig_rnds), (R, 'random_bits', orig_bits), (R, 'prfs', orig_prfs)]
+        R.output, R._randoms, R.random_bits, R.prfs = output, _randoms, random_bits, prfs
 
     def remove(self):
         for obj, name, old in self.saved:
@@ -105,6 +115,8 @@ async def evaluator(mpc, c, idx, arg):
         r = mpc._mod(x, c['b'])
     elif pr == 'tobits':
         r = mpc.to_bits(x, c['tl']) if c['tl'] else mpc.to_bits(x)
+    elif pr == 'convert':
+        r = mpc.convert(x, mpc.SecInt(c['l2']))
     elif pr == 'zero':
         z = await mpc.is_zero_public(x)
         return [int(z), T.field.modulus]
@@ -126,6 +138,7 @@ def gen_cases(rnd, quick):
                 cases.append(dict(base, proto='sgn', flag=flag, a=sec(), a2=sec()))
             cases.append(dict(base, proto='zero', a=rnd.choice([0, sec(), sec()]), a2=sec()))
             if typ == 'int':
+                cases.append(dict(base, proto='convert', l2=rnd.choice([l, l + 2, l + 4]), a=sec(), a2=sec()))
                 cases.append(dict(base, proto='lsb', a=sec(), a2=sec()))
                 cases.append(dict(base, proto='mod', b=rnd.choice([3, 5, 7, 10, 12]), a=sec(), a2=sec()))
                 cases.append(dict(base, proto='tobits', tl=rnd.choice([0, 0, 3, l - 1]), a=sec(), a2=sec()))
@@ -152,7 +165,7 @@ def run(ctx):
                         {'L': 4, 'K': 3, 'F': 3, 'B': 3, 'D': 1, 'P': 13}]):
             consts = dict(consts, MODBOUND=(1 << (consts['K'] + consts['L'])) // consts['B'] + 1)
             cfg = os.path.join(wd, 'mask.cfg')
-            for inv in ('TruncOK', 'LsbOK', 'ToBitsOK', 'ModOK', 'ZeroOK', 'SgnOK'):
+            for inv in ('TruncOK', 'LsbOK', 'ToBitsOK', 'ModOK', 'ZeroOK', 'ConvOK', 'SgnOK'):
                 tlc.write_cfg(cfg, init='Init', next_='Next', constants=consts, invariants=[inv])
                 res = tlc.run_tlc('MaskingMC', cfg, workdir=wd, timeout=6000)
                 ctx.add_tlc(res, f'MaskingMC[{inv},L={consts["L"]},K={consts["K"]},D={consts["D"]}]')
@@ -197,6 +210,10 @@ def run(ctx):
                               haspair=r2['open'] is not None, pa=r2['a'] * scale, pc=(r2['open'] or [0])[0])
                     if c['proto'] == 'tobits':
                         ev['l'] = c['tl'] or c['l']
+                    if c['proto'] == 'convert':
+                        ev['d'] = (t + 1) if no_prss else math.comb(m, t)
+                        if no_prss:       # the dealers draw below the bound with secrets.randbelow: not observed, take the formula
+                            ev['bound'] = (1 << (K + c['l'])) // ev['d'] + 1
                     if c['proto'] == 'sgn' and c.get('flag') is not None:
                         pass
                     evs.append(ev)
